@@ -5,6 +5,7 @@
 import TvFs.Model.Fs
 import TvFs.Model.Spec
 import TvFs.Model.Patterns
+import TvFs.Model.Fragment
 
 open TV.Fs
 
@@ -203,6 +204,10 @@ def evalCase (prop : String) (c : CaseIn) : Verdict := Id.run do
   let mut sps : Array Spec := #[Spec.init, Spec.init]
   let mut crashed : Array Bool := #[false, false]
   let mut taints : Array (List Taint) := #[[], []]
+  -- is the history of each fs instance inside the proved fragments (up to its first crash)?
+  let mut inFrag : Array Bool := #[true, true]
+  let mut inFlat : Array Bool := #[true, true]
+  let mut used : Array Bool := #[false, false]
   let mut v : Verdict := {}
   for r in c.recs do
     let h := r.host % 2
@@ -219,6 +224,12 @@ def evalCase (prop : String) (c : CaseIn) : Verdict := Id.run do
       sps := sps.set! h sp1
       let ts := monStep cfg taints[h]! st sp op r.ora
       taints := taints.set! h ts
+      used := used.set! h true
+      if !crashed[h]! && op != .crash then
+        inFrag := inFrag.set! h (inFrag[h]! && fragOk sp.l op && !r.ora.coin)
+        inFlat := inFlat.set! h (inFlat[h]! && fragOk sp.l op && opFlat op && !r.ora.coin)
+      for t in patternsAt st sp op do
+        v := { v with cov := addCov v.cov [s!"hit{t.1}"] }
       -- C07 compares the view *right after* a crash: any later mutation ends that window
       let observer := match op with
         | .dump _ => true | .stat _ => true | .exists _ => true | .readDir _ => true | .readFile _ => true
@@ -253,6 +264,9 @@ def evalCase (prop : String) (c : CaseIn) : Verdict := Id.run do
           let lbl := if prop == "C10" then "posix" else "durable"
           v := { v with oOk := false, oLine := r.line, pattern := pat,
                         oDetail := s!"at={" ".intercalate (bad.map renderPath)} {lbl}={ss} impl={r.obs}" }
+  let fragAll := (List.range 2).all fun i => !used[i]! || inFrag[i]!
+  let flatAll := (List.range 2).all fun i => !used[i]! || inFlat[i]!
+  v := { v with cov := addCov v.cov ((if fragAll then ["infrag"] else []) ++ (if flatAll then ["inflat"] else [])) }
   return v
 
 /-! ### trace reader -/
